@@ -592,6 +592,9 @@ func racePass() {
 	verifrt.SetOrderChooser(func(string, int) int { return 0 })
 	for round := 0; round < 40; round++ {
 		rt := newRuntime() // fresh: the first calls race on the lazily created client
+		if round%2 == 1 {
+			rt.Context = nil // every field a Submit may lazily default is left unset in half of the rounds
+		}
 		var wg sync.WaitGroup
 		var mu sync.Mutex
 		bad := ""
